@@ -53,6 +53,12 @@ func IsComplexExpr(expr string) bool {
 	return false
 }
 
+// IsKeywordLiteral reports whether s is one of the keyword literals of the expression
+// language - true, false, nil - which are values, not names of variables or functions.
+func IsKeywordLiteral(s string) bool {
+	return s == "true" || s == "false" || s == "nil"
+}
+
 // IsVariablePath reports whether expr has the shape of a variable reference: a name or a
 // dotted / bracketed path such as user.name, items[0], data["key"] or a hyphenated key.
 // Everything else that reaches a value position - a prefix operator (!x, -n), a parenthesis,
@@ -63,6 +69,9 @@ func IsVariablePath(expr string) bool {
 		// Nothing to evaluate: {{ }} and :title="" are looked up like a name, find nothing
 		// and have no value, instead of failing in the evaluator on an empty expression
 		return true
+	}
+	if IsKeywordLiteral(expr) {
+		return false
 	}
 	depth := 0
 	index := 0 // where the content of the innermost open bracket starts
